@@ -123,6 +123,25 @@ def new_target_prelude(data, hist, max_faults):
         hist.apply(step)
 
 
+def queued_then_new_branch(data, hist, max_faults):
+    """Pull requests are queued, then a new newest development branch is
+    created: the create-branch job publishes the branch and then rebuilds the
+    queues - interrupted in between, the old queues no longer cover the
+    cascade."""
+    from vf.checks import c03
+    if hist.world.mode == 'noqueue':
+        return
+    c03.prelude(data, hist, evaluate=False)
+    nb = ('development/11.0', 'development/12.0')[
+        data.draw(st.integers(0, 1), label='newdev2')]
+    step = {'op': 'admin', 'kind': 'create_branch', 'args': {'branch': nb}}
+    hist.flags.add('c02_queued_then_new_branch')
+    fault_job(data, hist, step, max(max_faults, 8), force=True)
+    if not hist.violations:
+        hist.apply(step)
+        hist.apply({'op': 'drain'})
+
+
 def body_factory(tier):
     max_jobs = 2 if tier == 'quick' else 4
     max_faults = 5 if tier == 'quick' else 10 ** 6
@@ -131,8 +150,13 @@ def body_factory(tier):
         n = data.draw(st.integers(8, 22), label='nsteps')
         done = 0
         stop = False
-        if data.draw(st.integers(0, 2), label='new_target') == 0:
+        pk = data.draw(st.integers(0, 5), label='new_target')
+        if pk in (0, 1):
             new_target_prelude(data, hist, max_faults)
+            if hist.violations:
+                return
+        elif pk == 2:
+            queued_then_new_branch(data, hist, max_faults)
             if hist.violations:
                 return
         while len(hist.steps) < 400 and not stop:
